@@ -101,7 +101,16 @@ type TypeInv struct {
 	Clause Clause
 }
 
+// GlobalInv: invariant over the package-level variables of one package.
+type GlobalInv struct {
+	Pkg    string
+	Props  []string
+	Clause Clause
+	InRepo bool
+}
+
 type ContractTable struct {
+	GlobalInvs []*GlobalInv
 	Funcs      map[string]*Contract
 	Specs      map[string]*SpecFun
 	Ghosts     map[string]*GhostVar
@@ -222,6 +231,20 @@ func (ct *ContractTable) LoadFile(path, pkg string, inRepo bool) {
 			c := mk(rest)
 			c.Trusted = true
 			curSpec.Axioms = append(curSpec.Axioms, c)
+		case "globalinv":
+			// globalinv <props>: expr  - an invariant over package-level variables of this package:
+			// proved as a postcondition of the package initialiser, assumed at the entry of every function
+			head, ex, ok := strings.Cut(rest, ":")
+			if !ok {
+				ct.errf(path, ln, "globalinv <props>: expr")
+				continue
+			}
+			save := cur
+			cur = nil
+			cl := mk(strings.TrimSpace(ex))
+			cur = save
+			ct.GlobalInvs = append(ct.GlobalInvs, &GlobalInv{Pkg: curPkg, Props: strings.Fields(head), Clause: cl, InRepo: inRepo})
+			cur, curSpec, curLemma = nil, nil, nil
 		case "ghost":
 			parts := strings.Fields(rest)
 			if len(parts) < 2 {
